@@ -240,7 +240,19 @@ def class_source(i, spec, base="object"):
         return (f"class {name}({base}):\n" + "".join(f"    {ln}\n" for ln in body or ["pass"])
                 + f"{name} = attr.s(these={{{items}}}, **_kw{i})({name})\n")
     body += [f"{n} = {src}" for n, src in fields]
-    return (f"@{deco}(**_kw{i})\nclass {name}({base}):\n" + "".join(f"    {ln}\n" for ln in body or ["pass"]))
+    cls_src = f"class {name}({base}):\n" + "".join(f"    {ln}\n" for ln in body or ["pass"])
+    prime = spec.get("prime")
+    if not prime:
+        return f"@{deco}(**_kw{i})\n" + cls_src
+    # HISTORY of a decorator object: `deco = attr.s(...)` (define / frozen) is created once and applied first to a
+    # priming class -- one with hand-written state methods, a stand-alone one, or a bare subclass of the same base --
+    # and then to the class under test; whatever the object remembers of the first class would show on the second
+    pbase = "object" if prime == "alone" else base
+    pbody = (["__getstate__ = _user_getstate", "__setstate__ = _user_setstate"] if prime == "own" else ["pass"])
+    return (f"_deco{i} = {deco}(**_kw{i})\n"
+            f"try:\n    @_deco{i}\n    class P{i}({pbase}):\n" + "".join(f"        {ln}\n" for ln in pbody)
+            + "except Exception:\n    pass\n"
+            + f"@_deco{i}\n" + cls_src)
 
 
 def nested_source(i, spec, base="object"):
